@@ -105,7 +105,7 @@ def run(ctx):
     for e in learned:
         nlearn += 1
         k = e["kind"]
-        got = e["visited"]
+        got = e["visited"] or []
         if e.get("panic"):
             bad_learn.append((e, "panic: " + e["panic"]))
             ctx.fail("learn:%s:%s:%s:%s" % (k, e["variant"], sorted(e["flags"].items()), sorted(e["recs"].items())),
@@ -144,7 +144,9 @@ def run(ctx):
         mal = 1 if ctx.rng.below(10) == 0 else 0
         prune = ctx.rng.choice([0, 0, 2, 3, 5, 7])
         cases.append("synth\t%d\t%d\t%d\t%d" % (seed, depth, mal, prune))
+    ctx.log("table learning: %d marker nodes, %d differ" % (nlearn, len(bad_learn)))
     rc, out = ctx.run([impl, "-structs", structs_path, "run"], input="\n".join(cases) + "\n", timeout=300)
+    ctx.log("implementation walked %d cases" % len(cases))
     if rc != 0:
         ctx.broken("correspondence(c18:impl-run)", "rc=%d %s" % (rc, out[-400:]))
         return
@@ -159,6 +161,7 @@ def run(ctx):
     prunes = [c.split("\t")[-1] for c in cases]
     minput = "\n".join("%s\t%s" % (prunes[i], res[i][0]) for i in live) + "\n"
     rc, mout = ctx.run([model], input=minput, timeout=300)
+    ctx.log("model walked %d trees" % len(live))
     if rc != 0:
         ctx.broken("correspondence(c18:model-run)", "rc=%d %s" % (rc, mout[-400:]))
         return
